@@ -115,7 +115,7 @@ theorem renPath_run (F : UG (U × Nat)) : ∀ (steps : List (Step U)) (c : Nat) 
     have ih := renPath_run F w _ _ r0 h0 (fun s hs => hr s (List.mem_cons_of_mem _ hs))
     have h1 := hr (Sp, P, (freshList c v).2) (by simp)
     rw [names_zip] at ih
-    simp only [names, List.map_cons, run, h1, and_self, and_true, if_true]
+    simp only [names, List.map_cons, run, h1, and_self, if_true]
     exact ih
 
 /-- in a grammar where every renamed step is the only rule of its left-hand side, a complete
